@@ -946,7 +946,7 @@ class C08(SimCheck):
             # what counts for a message is the sender's range at the moment it is sent
             scn["rangeChanges"] = True
             scn["profile"]["w"] = dict(scn["profile"]["w"], setRange=2.5)
-            scn["profile"]["ranges"] = [1.0e6, 1000.0, 250.0, 150.0, 1.0e6, 60.0, 25.0, 10.0, 0.0]
+            scn["profile"]["ranges"] = [1.0e6, 1000.0, 250.0, 150.0, 1.0e6, 60.0, 25.0, 10.0, 0.0, float("inf")]
             cfg["defaultRange"] = fbits(r.choice([1.0e6, 1.0e6, 60.0, 30.0]))
         return scn
 
@@ -978,7 +978,9 @@ class C08(SimCheck):
                     for d in dsts:
                         inr = None
                         R = rng[c["n"]]
-                        if snap is not None and R >= 0:
+                        if snap is not None and R == float("inf"):
+                            inr = True                     # an unlimited range reaches everybody
+                        elif snap is not None and R >= 0:
                             ps, pd = bitsv3(snap[c["n"]]), bitsv3(snap[d])
                             margin = sum((Fraction(pd[k]) - Fraction(ps[k])) ** 2 for k in range(3)) - Fraction(R) ** 2
                             if margin < -1e-6 or (margin == 0 and all(float(x).is_integer() for x in ps + pd)):
